@@ -50,6 +50,8 @@ FLOWDEF = {
     # a second backup in the same session: the previous, completed backup must survive until
     # the new one is complete
     "BOBC": ["backup", "write", "backup", "close"],
+    # a first backup taken while committed pages still sit in the write-ahead log
+    "OBC": ["write", "backup", "close"],
 }
 DBNAME = "pages.db"
 DEFAULT_TEMPLATES = {"Template:!", "Template:=", "Template:((", "Template:))"}
@@ -217,24 +219,43 @@ def _quiet():
     logging.disable(logging.CRITICAL)
 
 
-def real_flow(flow: str, db: Path, ov: str) -> None:
+# library calls of a real flow -> number of model calls ("backup"/"write"/"close") each one performs
+FLOW_CALLS = {"BOC": [2, 1], "OC": [1, 1], "BC": [1, 1], "C": [1], "BOBC": [1, 1, 1, 1], "OBC": [1, 1, 1]}
+
+
+def real_flow(flow: str, db: Path, ov: str, mark=lambda: None) -> None:
+    """mark() is called when the context is open and after every library call that returned
+    (progress marks: how far the process got, independent of the file states)."""
     from wikitextprocessor import Wtp
     from wikitextprocessor.dumpparser import analyze_and_overwrite_pages, process_dump
 
     w = Wtp(db_path=str(db), quiet=True)
+    mark()
     if flow == "BOC":
         process_dump(w, "", {0, 10, 828}, overwrite_folders=[Path(ov)], skip_extract_dump=True)
+        mark()
     elif flow == "OC":
         analyze_and_overwrite_pages(w, [Path(ov)], False, None)
+        mark()
     elif flow == "BC":
         w.backup_db()
+        mark()
     elif flow == "BOBC":
         w.backup_db()
+        mark()
         analyze_and_overwrite_pages(w, [Path(ov)], False, None)
+        mark()
         w.backup_db()
+        mark()
+    elif flow == "OBC":
+        analyze_and_overwrite_pages(w, [Path(ov)], False, None)
+        mark()
+        w.backup_db()
+        mark()
     elif flow != "C":
         raise ValueError(flow)
     w.close_db_conn()
+    mark()
 
 
 def _pkg_dir() -> str:
@@ -274,8 +295,14 @@ def fork_flow(flow: str, db: Path, ov: str, k: int):
             def glob(frame, event, arg):
                 return local if frame.f_code.co_filename.startswith(pkg) else None
 
+            def mark():
+                t = sys.gettrace()
+                sys.settrace(None)
+                os.write(w, b"P\n")
+                sys.settrace(t)
+
             sys.settrace(glob)
-            real_flow(flow, db, ov)
+            real_flow(flow, db, ov, mark)
             sys.settrace(None)
             if k <= 0 and dirhash(db.parent) != last[0]:
                 changes.append(cnt[0] + 1)
@@ -296,7 +323,9 @@ def fork_flow(flow: str, db: Path, ov: str, k: int):
         data += b
     os.close(r)
     _, st = os.waitpid(pid, 0)
-    return os.waitstatus_to_exitcode(st), data.decode()
+    lines = data.decode().split("\n")
+    marks = sum(1 for x in lines if x == "P")
+    return os.waitstatus_to_exitcode(st), "".join(x for x in lines if x != "P"), marks
 
 
 def fork_reopen(db: Path) -> dict:
@@ -381,8 +410,8 @@ def exec_tasks(chunk):
             work = wd / "d"
             shutil.rmtree(work, ignore_errors=True)
             shutil.copytree(st["dir"], work)
-            rc, msg = fork_flow(flow, work / DBNAME, ov[gen], k)
-            r = {"sid": sid, "flow": flow, "k": k, "rc": rc, "msg": ""}
+            rc, msg, marks = fork_flow(flow, work / DBNAME, ov[gen], k)
+            r = {"sid": sid, "flow": flow, "k": k, "rc": rc, "msg": "", "marks": marks}
             if rc not in (0, 3, 137):
                 raise RuntimeError(f"child running flow {flow} ended with status {rc}")
             if rc == 3 or k <= 0:
@@ -574,6 +603,35 @@ def judge(o: Outcome, case: dict, real: dict, cands: list, tabs: dict, chain_key
     return "bad"
 
 
+def coarse_candidates(tabs: dict, chain_prefix, flow: str, marks: int):
+    """Cases of the ideal model whose earlier runs have exactly the observed file states and whose last
+    run is `flow`, ended at a position compatible with the progress marks of the real process
+    (marks = 0: still opening; otherwise the library call number `marks` was running - or, when all
+    calls had returned, the process was done)."""
+    calls = FLOW_CALLS[flow]
+    out = []
+    for key, cases in tabs["ideal"].items():
+        if len(key) != len(chain_prefix) + 1 or tuple(key[:-1]) != tuple(chain_prefix) or key[-1][0] != flow:
+            continue
+        for c in cases:
+            last = c["runs"][-1]
+            st, stop = last["started"], last["stop"]
+            opening = stop in ("O1", "Ow", "Os", "O2", "O3", "O4", "O5", "O6")
+            if marks == 0:
+                ok = opening
+            elif marks > len(calls):
+                ok = stop == "done"
+            else:
+                a = sum(calls[: marks - 1]) + 1      # first model call of the running library call
+                b = sum(calls[:marks])               # last one
+                ok = (not opening) and ((a <= st <= b) or (st == a - 1 and stop == "open")) and stop != "done"
+                if marks == len(calls) and stop == "done":
+                    ok = True                        # killed at the very end of close: may count as finished
+            if ok:
+                out.append(c)
+    return out
+
+
 def describe(c):
     c = list(c)
     if TORN in c:
@@ -728,6 +786,17 @@ def run(tier: str) -> int:
                 real = r["reopen"]
                 if TORN in real["content"] or real["integrity"] != ["ok"]:
                     o.violation(dict(case, reopen=real), "reopen does not yield a complete, sound database: " + str(real), cls="torn")
+                else:
+                    # the files are in no state of the model: judge by the position of the process alone
+                    # (progress marks), against everything the statement allows at that position
+                    cc = coarse_candidates(tabs, chain_prefix, sw.flow, r.get("marks", 0))
+                    allowed = {tuple(sorted(c["expected"])) for c in cc}
+                    stats["coarse"] = stats.get("coarse", 0) + 1
+                    if allowed and tuple(pages_of(real["content"])) not in allowed:
+                        o.violation(dict(case, reopen=real, progress_marks=r.get("marks"), allowed=[list(a) for a in sorted(allowed)]),
+                                    f"a new Wtp(db_path) after the kill yields content {describe(real['content'])}; at this point of the flow "
+                                    f"({r.get('marks')} library call(s) begun/returned) the statement allows only "
+                                    + " or ".join(describe(a) for a in sorted(allowed)), cls="coarse:" + case["flows"])
             if okey(r["obs"]) != base_key:
                 o.shape(chain_key)
             # conformance of the file state after the reopen (outside the property: drift)
@@ -786,7 +855,7 @@ def replay(path: str) -> int:
                     return 2
             work = root / "w"
             shutil.copytree(d, work)
-            rc, msg = fork_flow(case["flow"], work / DBNAME, ov[GENS[1] if chain else GENS[0]], case["kill_line_index"])
+            rc, msg, _marks = fork_flow(case["flow"], work / DBNAME, ov[GENS[1] if chain else GENS[0]], case["kill_line_index"])
             print(f"flow {case['flow']} killed at line index {case['kill_line_index']} (exit {rc})")
             print("files:", {p.name: p.stat().st_size for p in sorted(work.iterdir())})
             print("observed:", observe(work, sc / "s"))
